@@ -111,7 +111,11 @@ Args:
         #solver.SetEvaluationMonitor(solver._evalmon[:0], new=True)
         #solver.SetGenerationMonitor(solver._stepmon[:0], new=True)
         # each terminated solver is replaced by its own new instance
-        [s._allSolvers.__setitem__(i, fresh(reset=True)) for i,j in enumerate(s.Terminated(all=True)) if j is True]
+        def renew(i): # the new instance takes over the id of its slot
+            solver = fresh(reset=True)
+            solver.id = getattr(s._allSolvers[i], 'id', None)
+            return solver
+        [s._allSolvers.__setitem__(i, renew(i)) for i,j in enumerate(s.Terminated(all=True)) if j is True]
         s._bestSolver = None
         s._AbstractEnsembleSolver__update_state()
         return
